@@ -78,6 +78,11 @@ func decompose(v any, opt *Options) any {
 		if simp, _ := v.(Simplifier); simp != nil {
 			return decompose(simp.Simplify(), opt)
 		}
+		if g, _ := v.(Genericer); g != nil {
+			if n := g.Generic(); n != nil {
+				return decompose(n.Simplify(), opt)
+			}
+		}
 		return reflectValue(reflect.ValueOf(v), v, opt)
 	}
 	return v
@@ -166,6 +171,11 @@ func alter(v any, opt *Options) any {
 	default:
 		if simp, _ := v.(Simplifier); simp != nil {
 			return alter(simp.Simplify(), opt)
+		}
+		if g, _ := v.(Genericer); g != nil {
+			if n := g.Generic(); n != nil {
+				return alter(n.Simplify(), opt)
+			}
 		}
 		return reflectValue(reflect.ValueOf(v), v, opt)
 	}
